@@ -597,9 +597,12 @@ class Chain:
 
 
 # ------------------------------------------------------------------ scenarios
+MONITOR_ONLY = {"retrynudge"}
+
+
 def gen_case(rng, kind=None):
     """ops: list of (time_units, op, payload), sorted by time."""
-    kinds = ["plain", "self", "retry", "retry2", "waitretry", "waitfail", "wait", "waitresp", "crash", "boundary", "zero", "yield", "startup", "burst", "latency"]
+    kinds = ["plain", "self", "retry", "retry2", "retrynudge", "waitretry", "waitfail", "wait", "waitresp", "crash", "boundary", "zero", "yield", "startup", "burst", "latency"]
     kind = kind or rng.choice(kinds)
     tau = rng.choice([8, 16, 32, 64, 96])
     y = 0
@@ -657,6 +660,15 @@ def gen_case(rng, kind=None):
         ops.append((t, "send", plain_ev(wait=T / U, dur=0.0)))
         t += T + rng.choice([2, tau // 2 + 1, 2 * tau + 5])
         ops.append((t, "send", plain_ev(fail=True, dur=0.0)))
+        t += 3 * POLICY_delay + 4 * tau + 40
+        ops.append((t, "send", plain_ev(fin=True)))
+    elif kind == "retrynudge":
+        # while a retry waits out a delay longer than the idle timeout, an event that nobody accepts arrives (a response
+        # for a wait that does not exist): it is reported as unhandled, and the run must neither be marked idle nor released
+        POLICY_delay = rng.choice([2 * tau + 8, 3 * tau])
+        ops.append((0, "policy", POLICY_delay / U))
+        ops.append((t, "send", plain_ev(fail=True, dur=0.0)))
+        ops.append((t + rng.choice([1, 2, max(1, tau // 4)]), "resp", 900 + rng.randint(1, 9)))
         t += 3 * POLICY_delay + 4 * tau + 40
         ops.append((t, "send", plain_ev(fin=True)))
     elif kind == "waitfail":
@@ -1005,6 +1017,9 @@ def analyze(case, rec, res, ref=None):
         if len(last) >= 9 and last[0] == 1 and last[2] == 0 and last[3] == 1 and all(last[k] == 0 for k in (5, 6, 7, 8)):
             issue("C36", None, "at the end of the scenario (t=%d, idle_timeout=%d) the run is still in memory, has nothing busy, queued "
                   "or scheduled, and was never marked idle after its last activity: it will never be released" % (case["horizon"], tau))
+        if len(last) >= 9 and last[0] == 0 and last[3] == 1 and last[2] == 0 and not crashes:
+            issue("C36", None, "at the end of the scenario the run is not in memory although its handler says 'running' and is not "
+                  "marked idle: it was dropped without being released (the work it had in flight is gone)")
         count("final_states_checked")
 
     # ---- C36: reload is transparent (same outcome as the never-released reference run)
@@ -1095,7 +1110,7 @@ def run_suite(ctx, n, props, with_reference=0.35):
     conform value, issues (restricted to `props`)."""
     import core
     rng = random.Random(ctx.seed * 7919 + 11)
-    kinds = ["plain", "self", "retry", "retry2", "waitretry", "waitfail", "wait", "waitresp", "crash", "boundary", "zero", "yield", "startup", "burst", "latency"]
+    kinds = ["plain", "self", "retry", "retry2", "retrynudge", "waitretry", "waitfail", "wait", "waitresp", "crash", "boundary", "zero", "yield", "startup", "burst", "latency"]
     out, exprs, total = [], [], {}
     corpus = corpus_cases()
     for k in range(len(corpus) + n):
@@ -1115,7 +1130,8 @@ def run_suite(ctx, n, props, with_reference=0.35):
                 total[f] = total.get(f, 0) + v
         total["cases_" + case["kind"]] = total.get("cases_" + case["kind"], 0) + 1
         total["actions"] = total.get("actions", 0) + len(rec.trace)
-        exprs.append(conform_expr(case, rec))
+        # (an event nobody accepts is outside M-IdleRelease: those scenarios are evaluated by the monitors only)
+        exprs.append("0" if case["kind"] in MONITOR_ONLY else conform_expr(case, rec))
         out.append(dict(case=case, res=res, issues=[i for i in issues if i["prop"] in props], facts=facts,
                         ntrace=len(rec.trace), trace=rec.trace))
     vals = ctx.run_cases("idlerel", HEADER, exprs, shard=40)
